@@ -313,7 +313,7 @@ def plan_C13(tier):
     )
 
 
-C14_CASES = 7 * 136 + 159 + 3 + 13 + 56
+C14_CASES = 7 * 136 + 159 + 3 + 13 + 56 + 6 + 4
 
 
 def plan_C14(tier):
@@ -336,7 +336,7 @@ def plan_C14(tier):
         what="closed-form comparison, exhaustive for the stated parameter ranges; tiling monitor",
         min_distinct=900,
         exhaustive=True,
-        min_feats={"inadmissible": 13, "complete": 136, "wheel": 136, "biclique": 159, "second_call_after_a_different_order": 56},
+        min_feats={"inadmissible": 13, "complete": 136, "wheel": 136, "biclique": 159, "second_call_after_a_different_order": 56, "extreme_order": 6, "concurrent_callers": 4},
     )
 
 
